@@ -1,2 +1,72 @@
-(* C11_Spec.v placeholder, replaced below *)
+(* C11_Spec.v — what the property text promises about a server batch, written from the
+   text: which cases a fault affects, what an affected case must be recorded as, what an
+   unaffected one keeps, and what a stderr line must look like to be attributed.  No
+   reference to the loop, the pending callbacks, the wait group or the log. *)
 From V Require Export C11_Model.
+Open Scope N_scope.
+
+(* ---------- which cases does a fault affect? ---------- *)
+(* the batch never gets as far as sending anything: the server could not be started, did
+   not take its request, gave no usable answer (never answered, cut short, too large,
+   garbage), or omitted the certificate although TLS is on *)
+Definition prefault (sv : server) : bool :=
+  negb sv.(s_start)
+  || match sv.(s_write) with WOk => false | _ => true end
+  || match sv.(s_resp) with RBad => true | RValid cert => sv.(s_tls) && negb cert end.
+
+(* how many cases from the front the client runner accepts *)
+Fixpoint sends_ok (cs : list case) : nat :=
+  match cs with
+  | c :: r => if c.(c_send) then S (sends_ok r) else 0%nat
+  | [] => 0%nat
+  end.
+
+(* index of the first affected case: the server is gone after s_dead sends, or the client
+   runner refuses a request — whichever comes first *)
+Definition fault_point (sv : server) (cs : list case) : nat :=
+  match sv.(s_dead) with
+  | Some d => Nat.min d (sends_ok cs)
+  | None => sends_ok cs
+  end.
+
+(* what the affected cases are recorded as.  A dead server is looked for before a case is
+   sent, so on a tie it is the server's death that is recorded. *)
+Definition fault_kind (sv : server) (cs : list case) : okind :=
+  match sv.(s_dead) with
+  | Some d => if (d <=? sends_ok cs)%nat then KSetup else KCouldNotRun
+  | None => KCouldNotRun
+  end.
+
+(* the one outcome case number i must have when the batch has ended *)
+Definition expected (sv : server) (cs : list case) (i : nat) (c : case) : okind :=
+  if prefault sv then KSetup
+  else if (i <? fault_point sv cs)%nat then verdict c.(c_ans)
+  else fault_kind sv cs.
+
+Definition names (cs : list case) : list bytes := map c_name cs.
+Definition distinct (cs : list case) : Prop := NoDup (names cs).
+(* the client runner reports results under the name it was given (C10's contract) *)
+Definition well_named (cs : list case) : Prop := Forall (fun c => c.(c_report) = c.(c_name)) cs.
+
+(* ---------- stderr side-band ---------- *)
+Definition colon_space : bytes := [58; 32].
+Definition infix (p s : bytes) : Prop := exists a b, s = a ++ p ++ b.
+
+(* `line` reads "<n>: <m>" (surrounding white space aside) with n a case of the batch; n is
+   what stands before the FIRST ": " *)
+Definition side_of (batch : list bytes) (line n m : bytes) : Prop :=
+  trim_space line = n ++ colon_space ++ m /\ ~ infix colon_space n /\ In n batch.
+Definition blank (line : bytes) : Prop := trim_space line = [].
+Definition attributed (batch : list bytes) (line : bytes) : Prop := exists n m, side_of batch line n m.
+
+(* order-preserving selection *)
+Inductive subseq {A} : list A -> list A -> Prop :=
+| ss_nil : subseq [] []
+| ss_take x l l' : subseq l l' -> subseq (x :: l) (x :: l')
+| ss_skip x l l' : subseq l l' -> subseq l (x :: l').
+
+(* how a byte stream falls into lines: every line but the last ends with its newline and
+   has no other; the last has none; nothing is lost *)
+Definition is_line (l : bytes) : Prop := exists body, l = body ++ [10] /\ ~ In 10 body.
+Definition lines_of (s : bytes) (ls : list bytes) : Prop :=
+  concat ls = s /\ exists init last, ls = init ++ [last] /\ Forall is_line init /\ ~ In 10 last.
